@@ -176,6 +176,8 @@ def _mk_view(name, width=None):
         tgt = "imax(0, imin(self.end_of_file, ite(whence == 1, self.position, ite(whence == 2, self.end_of_file, 0)) + offset))"
         if rev:
             c.raises("BadAlign", f"({tgt}) % self.sample_width != 0", iff=True)
+            # a rejected seek leaves the view where it was
+            c.ensures_on_raise("BadAlign", "self.position == old(self.position) and self.end_of_file == old(self.end_of_file)", "a-rejected-seek-does-not-move-the-view")
         c.ensures(f"self.position == old({tgt})", "clamps-to-0-length")
         c.ensures("result == self.position", "returns-new-position")
         c.ensures("self.end_of_file == old(self.end_of_file)", "length-kept")
